@@ -88,6 +88,8 @@ def parse_tok(t):
 
 def rule_accepts(rule, msg, sender_conn, addressed_conn, primary):
     """monitor rule (always eavesdropping).  primary: name token -> connection id of its primary owner"""
+    if rule.startswith("!"):
+        return False
     t, sd, d, i, m = rule.split("/")
     if t != "-" and t != msg["type"]:
         return False
@@ -135,6 +137,10 @@ def oracle(events, res):
     gone = set()
     dead_monitors = set()
     to_activatable = {}       # connection -> serials of the messages it sent to a name that has a service file
+    held_tokens = {}          # token of such a message -> step at which it was sent
+    shown = {}                # monitor -> tokens of such messages it has been shown
+    unpriv = set()
+    nconn = 0
     for i, ev in enumerate(events):
         st, closed, sent = res["steps"][i], res["closed"][i], res["sent"][i]
         if st is None:
@@ -149,7 +155,15 @@ def oracle(events, res):
         actor = int(f[1]) if f[0] not in ("C", "Cu") else None
         if f[0] in ("C", "Cu"):
             actor = int(sent.split("/")[1][1:])
+        if f[0] in ("C", "Cu"):
+            if f[0] == "Cu":
+                unpriv.add(nconn)
+            nconn += 1
         if f[0] == "S" and f[3] in ("n%d" % k for k in mi.ACTIVATABLE):
+            if int(f[6]) in to_activatable.get(int(f[1]), ()):
+                held_tokens.pop(sent, None)          # serial reused: tokens may coincide legitimately
+            else:
+                held_tokens[sent] = i
             to_activatable.setdefault(int(f[1]), set()).add(int(f[6]))
         # --- processed messages the harness knows about
         processed = []        # (token, sender_conn, addressed_conn)
@@ -193,13 +207,20 @@ def oracle(events, res):
                     collected = bool(acc) and all(any(y in ("u%d" % k for k in dead_monitors) for y in r.split("/")[1:3]) for r in acc)
                     flags.append({"cls": ("unseen-local" if local and n == 0 else "rule-collected" if collected and n == 0 else "copies"), "step": i,
                                   "what": "monitor %d read %d copies of %s, expected %d" % (x, n, t, 1 if e1 else 0)})
+            # a message held for activation is shown when it is received, not again when it is finally delivered
+            for t in got:
+                if t in held_tokens:
+                    if t in shown.setdefault(x, set()) and held_tokens[t] != i:
+                        flags.append({"cls": "held-copied-twice", "step": i,
+                                      "what": "monitor %d is shown %s a second time (it was received at step %d)" % (x, t, held_tokens[t])})
+                    shown[x].add(t)
             # never the addressee: nothing the bus itself originates is addressed to a monitor (copies of clients' messages
             # to its former unique name are undeliverable messages shown to it as observer, their SENDER is the client)
             for t in got:
                 m = parse_tok(t)
                 if m["sender"] == "d" and m["dest"] == "u%d" % x:
-                    # the NoReply for a call of x that was still held for activation when x became a monitor
-                    held = m["type"] == "e" and m["err"] == 4 and m["rserial"] in to_activatable.get(x, ())
+                    # the NoReply (callee left) or refusal (policy, at release) for a call of x that was still held for activation when x switched
+                    held = m["type"] == "e" and m["rserial"] in to_activatable.get(x, ())
                     flags.append({"cls": "held-call-noreply" if held else "addressed-to-monitor", "step": i,
                                   "what": "monitor %d read a message the bus originated and addressed to the monitor itself: %s" % (x, t)})
             # a message read twice in one step (bus-made refusal errors are distinct messages with equal content)
@@ -217,8 +238,18 @@ def oracle(events, res):
         if f[0] == "B" and actor not in mons_before:
             got = st.get(actor, [])
             acked = any(parse_tok(t)["type"] == "r" and parse_tok(t)["rserial"] == int(f[2]) for t in got)
+            # BecomeMonitor is all or nothing (D-Bus specification, org.freedesktop.DBus.Monitoring): only a privileged caller,
+            # flags must be 0, every rule must parse; a refused call leaves the caller an ordinary connection with one error
+            rules = [] if f[3] == "-" else f[3].split(",")
+            want_err = 1 if actor in unpriv else 7 if (len(f) > 5 and f[5] == "0") else 7 if (len(f) > 4 and f[4] != "0") else 8 if "!" in rules else 0
+            errs = [parse_tok(t)["err"] for t in got if parse_tok(t)["type"] == "e" and parse_tok(t)["sender"] == "d" and parse_tok(t)["rserial"] == int(f[2])]
+            if want_err and (acked or errs != [want_err] or len(got) != 1):
+                flags.append({"cls": "switch-not-refused", "step": i,
+                              "what": "BecomeMonitor by connection %d must be refused with error %d and nothing else; it read %s" % (actor, want_err, got)})
+            if not want_err and not acked:
+                flags.append({"cls": "switch-refused-wrongly", "step": i, "what": "a well-formed BecomeMonitor by privileged connection %d was not acknowledged: %s" % (actor, got)})
             if acked:
-                filters[actor] = ["-/-/-/-/-"] if f[3] == "-" else f[3].split(",")
+                filters[actor] = ["-/-/-/-/-"] if not rules else [r for r in rules if r != "!"] or ["!none"]
                 # after the ack the only things the bus addresses to the new monitor are the NameLost signals of the switch;
                 # in particular no error answering (or giving up on) one of its own calls
                 k_ack = next(j for j, t in enumerate(got) if parse_tok(t)["type"] == "r" and parse_tok(t)["rserial"] == int(f[2]))
